@@ -38,24 +38,117 @@ def h_sample(env, N, r, L=2):
         return
     for k in range(L):
         env.goal('sample[%d]_is_stabilized_with_sign_+1' % k, eq(ref.ref_expect(gs, ps, r, N, smp.gs[k], smp.ps[k]), 1))
-    if env.symbolic and N - r > 0:
-        coins = env.coins()
-        env.goal('coins_per_sample', len(coins) == L * (N - r))
-        per = N - r
-        mine = coins[:per]
-        fresh = [STORE.fresh('coin2', 0, 1) for _ in mine]
-        sub = [(c.e, f.e) for c, f in zip(mine, fresh)]
-        bits = [eq(smp.gs[0][i], 1) for i in range(2 * N)]
-        bits2 = [mkbool(z3.substitute(bexpr(b), *sub)) if is_sym(to_bool(b)) else b for b in bits]
-        differ = OR(compare('!=', a, b) for a, b in zip(mine, fresh))
-        env.goal('coins_to_element_injective', b_implies(differ, OR(compare('!=', a, b) for a, b in zip(bits, bits2))))
-    elif not env.symbolic:
-        env.observe('element', [int(x) for x in smp.gs[0]])
-        env.observe('element#distinct', 2 ** (N - r))
+    # (uniformity over the group is decided by fibre counting across all paths: u_sample_uniform below)
 
 
 h_sample.uses_rng = True
 h_sample.variation_goals = {'coins_to_element_injective': 'element'}
+
+
+def u_sample_uniform(job, packages, rec):
+    """sample(1) is uniform over the 2^(N-r) group elements for EVERY valid state: with T equally likely coin vectors
+    and E = 2^(N-r) elements, no K+1 = T/E + 1 pairwise different coin vectors may give the same element (pigeonhole:
+    then every element has exactly K preimages).  Independent of how the implementation spends its coins."""
+    import os
+    from symclif import explore
+    N, r = job['params']['N'], job['params']['r']
+
+    def thunk(env):
+        M = Mods(env)
+        gs, ps = sym_state(env, N)
+        state = mk_state(M, env, gs, ps, r)
+        smp = state.sample(1)
+        return [smp.gs[0][i] for i in range(2 * N)] + [smp.ps[0]]
+    paths = explore.collect_paths(thunk, packages, rec)
+    coins = paths[0]['coins']
+    if any(len(p['coins']) != len(coins) for p in paths):
+        rec['errors'].append('the number of coins depends on the path')
+        return
+    T = 1
+    for c in coins:
+        T *= (c.hi - c.lo + 1)
+    E = 2 ** (N - r)
+    rec['notes'] = dict(paths=len(paths), coin_vectors=T, elements=E)
+    inputs_now = dict(STORE.inputs)
+
+    def instance(tag):
+        cs = [z3.BitVec('%s_%d' % (tag, i), c.e.size()) for i, c in enumerate(coins)]
+        rng = [z3.ULE(v, c.hi) for v, c in zip(cs, coins)]
+        sub = [(c.e, v) for c, v in zip(coins, cs)]
+        rows = []
+        for p in paths:
+            pcs = p['pc'] + p['assumed']
+            pc = z3.And(*[z3.substitute(x, *sub) for x in pcs]) if pcs else z3.BoolVal(True)
+            vals = []
+            for x in p['value']:
+                x = to_int(x)
+                vals.append(z3.substitute(x.e, *sub) if is_sym(x) else z3.BitVecVal(int(x), 8))
+            rows.append((pc, vals))
+        return cs, rng, rows
+
+    def same_element(rows, tgt):
+        return z3.Or(*[z3.And(pc, *[z3.ZeroExt(8 - v.size(), v) == t if v.size() < 8 else v == t for v, t in zip(vals, tgt)]) for pc, vals in rows])
+    tgt = [z3.BitVec('elem_%d' % i, 8) for i in range(2 * N + 1)]
+    if T % E != 0:
+        rec['errors'].append('%d coin vectors cannot be spread evenly over %d elements: the sampler cannot be uniform (no replayable witness built for this case)' % (T, E))
+        return
+    K = T // E
+    for n_copies, expect in ((K + 1, 'unsat'), (K, 'sat')):
+        cons, copies = [], []
+        for j in range(n_copies):
+            cs, rng, rows = instance('c%d_%d' % (n_copies, j))
+            cons += rng + [same_element(rows, tgt)]
+            copies.append(cs)
+        for a in range(n_copies):
+            for b in range(a + 1, n_copies):
+                cons.append(z3.Or(*[x != y for x, y in zip(copies[a], copies[b])]))
+        name = 'no_%d_distinct_coin_vectors_give_the_same_element' % n_copies if expect == 'unsat' else 'some_element_has_%d_distinct_preimages' % n_copies
+        sv, res = explore.solve_query(rec, name, cons, job.get('timeout_s', 600), expect)
+        if expect == 'sat':
+            if res == 'sat':
+                rec['vacuity_witnesses'] += 1
+            elif res == 'unsat':
+                rec['errors'].append('vacuous: no element has K preimages')
+        elif res == 'sat':
+            m = sv.model()
+            STORE.inputs = inputs_now
+            cex = dict(property='C19', harness=list(job['harness']), params=job['params'], label=job['label'], goal='uniformity', kind='sample_not_uniform',
+                       inputs=dict(explore.extract_inputs(m), coin_vectors=[[m.eval(v, model_completion=True).as_long() for v in cs] for cs in copies], K=K), tags={}, notes=[])
+            path = explore.write_replay(os.path.join(explore.VERIF, 'replays'), cex)
+            rp = explore.replay_file(path, timeout=900)
+            if rp.get('status') == 'reproduced':
+                rec['violations'].append(dict(goal='uniformity', replay=path, inputs=cex['inputs']))
+            else:
+                rec['errors'].append('non-uniformity witness did not reproduce on the real build (%s): %s' % (rp.get('status'), path))
+
+
+u_sample_uniform.custom = True
+
+
+def custom_judge(cex):
+    """concrete confirmation of a non-uniform sample(1): the empirical distribution over 400 * 2^(N-r) draws on the
+    real build misses a group element or is off by more than a factor 1.5 for some element"""
+    import warnings
+    warnings.filterwarnings('ignore')
+    from symclif import explore
+    st = explore.real_modules('pyclifford', 'stabilizer')
+    N, r = cex['params']['N'], cex['params']['r']
+    gs = np.array(cex['inputs']['s'], dtype=np.int64)
+    ps = np.array(cex['inputs']['s_sign'], dtype=np.int64)
+    ps = ps if ps.max(initial=0) > 1 else 2 * ps
+    state = st.StabilizerState(gs.copy(), ps=ps.copy()).set_r(r)
+    E = 2 ** (N - r)
+    M = 400 * E
+    explore.seed_all(None, 20261004)
+    counts = {}
+    for _ in range(M):
+        smp = state.sample(1)
+        key = tuple(int(x) for x in smp.gs[0]) + (int(smp.ps[0]) % 4,)
+        counts[key] = counts.get(key, 0) + 1
+    exp = M / E
+    bad = len(counts) != E or any(c < exp / 1.5 or c > exp * 1.5 for c in counts.values())
+    return dict(status='reproduced' if bad else 'not-reproduced', draws=M, distinct=len(counts), expected_distinct=E,
+                min_count=min(counts.values()), max_count=max(counts.values()))
 
 
 def h_density_matrix(env, N, r):
@@ -152,6 +245,8 @@ def jobs(tier):
         for r in range(N + 1):
             J.append(dict(harness=('c19', 'h_sample'), params=dict(N=N, r=r), timeout_s=600, cost=10))
             J.append(dict(harness=('c19', 'h_density_matrix'), params=dict(N=N, r=r), timeout_s=600, cost=10))
+            if r < N:
+                J.append(dict(harness=('c19', 'u_sample_uniform'), params=dict(N=N, r=r), timeout_s=600, cost=20))
     progs = [(1, [['gen', [0]]]), (1, [['gen', [0]], ['gen', [0]]]), (2, [['gen', [0, 1]]]), (2, [['gen', [0]], ['gen', [0, 1]]]), (2, [['gen', [0, 1]], ['gen', [1]]])]
     if tier == 'thorough':
         progs += [(2, [['gen', [0, 1]], ['gen', [1]], ['gen', [0, 1]]])]
